@@ -50,7 +50,8 @@ ASSUMPTIONS = [
     "one carrier per case: the statement does not say what happens when .thailintignore and the config list both exist",
     "patterns only of the documented forms over [A-Za-z0-9_.] names; an exact-path pattern for a root-level file is only "
     "generated when its basename is unique in the tree (gitignore would also match it deeper; the docs call it a single file)",
-    "explicit file targets never overlap a directory target (whether a doubly named file reports twice is C10's subject)",
+    "explicit file targets are never covered by a directory target of the same run (whether a doubly named file reports twice is C10's "
+    "subject); with --no-recursive a file deeper below a directory target is not covered by it and is generated",
     "a .git directory is only generated directly in the project root (a nested .git turns the sub-directory into its own "
     "project root for targets below it, so 'the repository's' config and ignore file would be ambiguous)",
     "no symlinks; no negation / escapes / leading-slash patterns (not documented)",
@@ -177,7 +178,13 @@ def cases(draw):
     else:
         d = draw(st.sampled_from(live_dirs))
         outside = [p for p in paths if not p.startswith(d + "/")]
+        if not recursive:
+            # a non-recursive directory target covers its direct children only: files deeper below it are "outside" too
+            deeper = [p for p in paths if p.startswith(d + "/") and "/" in p[len(d) + 1:]]
+            outside = deeper + deeper + outside
         targets = [d] + (draw(st.lists(st.sampled_from(outside), min_size=1, max_size=2, unique=True)) if outside else [])
+        if draw(st.booleans()):
+            targets = targets[1:] + targets[:1]  # the order of the arguments is not supposed to matter
     return {"files": files, "patterns": patterns, "carrier": carrier, "recursive": recursive, "targets": targets, "tk": tk}
 
 
